@@ -316,7 +316,7 @@ func (g *gram) observability() {
 			g.line(2, "}")
 		}
 		for i := 0; i < r.Intn(3); i++ {
-			g.line(2, "header", g.val(vlib.Pick(r, []string{"Authorization", "X-Scope", "X-Api-Key"})), g.val(vlib.Pick(r, []string{"Bearer token", "team-a", "k=v; x"})))
+			g.line(2, "header", g.val(vlib.Pick(r, []string{"Authorization", "X-Scope", "X-Api-Key"})), g.val(vlib.Pick(r, []string{"Bearer token", "team-a", "k=v; x", "{vars.VERIF}", "{env.VERIF_C19_A}.{env.VERIF_C19_B}", "Bearer {env.VERIF_C19_B}"})))
 		}
 		g.line(1, "}")
 	}
@@ -449,7 +449,14 @@ func (g *gram) matchBody(ind int) {
 		g.line(ind, "host", g.val(vlib.Pick(r, []string{"hooks.example.com", "*.example.com", "*"})))
 	}
 	if g.opt() {
-		g.line(ind, "header", g.val("X-Event"), g.val(vlib.Pick(r, []string{"push", "pull request", "a,b"})))
+		// values with placeholders keep their quotes whatever the spelling of the name;
+		// a directive may carry several name/value pairs
+		hv := []string{"push", "pull request", "a,b", "{vars.VERIF}", "{env.VERIF_C19_B}", "{env.VERIF_C19_A}.{env.VERIF_C19_B}", "{$VERIF_C19_A}", "pre-{vars.VERIF}", "{vars.VERIF}-post"}
+		parts := []string{"header", g.val("X-Event"), g.val(vlib.Pick(r, hv))}
+		if r.Chance(0.3) {
+			parts = append(parts, g.val("X-Second"), g.val(vlib.Pick(r, hv)))
+		}
+		g.line(ind, parts...)
 	}
 	if g.opt() {
 		g.line(ind, "header_exists", g.val("X-Delivery"))
